@@ -71,7 +71,8 @@ pub struct Straggler {
     pub duration: Vec<u64>,
     pub step: u64,
     pub frozen: Vec<(usize, u64)>,
-    /// slow-database mode: a worker that reports a database fetch (`db_*`) is frozen with
+    /// slow-database mode: a worker that reports a database fetch (`db_*`), or that is about to
+    /// validate a transaction it has claimed (`val_enter`), is frozen with
     /// probability 1/`db_one_in` for a random number of steps up to `db_max`
     pub db_one_in: u64,
     pub db_max: u64,
@@ -103,7 +104,7 @@ impl Strategy for Straggler {
         }
         if self.db_one_in > 0 {
             if let Some(ev) = last {
-                if ev.kind.starts_with("db_") && ev.tid >= 0 && threads[ev.tid as usize].role == "worker" && self.inner.rng.below(self.db_one_in) == 0 {
+                if (ev.kind.starts_with("db_") || ev.kind == "val_enter") && ev.tid >= 0 && threads[ev.tid as usize].role == "worker" && self.inner.rng.below(self.db_one_in) == 0 {
                     let d = 10 + self.inner.rng.below(self.db_max.max(1));
                     self.frozen.push((ev.tid as usize, step + d));
                 }
